@@ -9,7 +9,7 @@ from specmc.refmodels import deps
 
 ID = "C08"
 LEVEL = "fault_enumeration"
-RULE = ("every single insertion (thorough: every pair) of each of 11 bad-piece kinds at every position (new component; property / "
+RULE = ("[base E: inline schemas named by title alone (use_path_prefixes off), bad pieces carrying the title of a healthy inline enum / object] every single insertion (thorough: every pair) of each of 11 bad-piece kinds at every position (new component; property / "
         "array item / union member / additionalProperties of each object schema; parameter / body / response of each operation) "
         "of 3 valid base documents whose units are linked by every kind of $ref edge (a fourth base holds several operations per path owning inline classes and shared path-item parameters that some operations re-declare: the bad piece is also inserted into the shared parameter, carried only by the operations that inherit it), plus every single under every permutation "
         "of components.schemas of one base; oracle: modules outside the reverse-dependency cone byte-identical to those of the "
@@ -119,8 +119,31 @@ def base_d():
     return gen.base_doc(S, paths=P)
 
 
-BASES = {"A": base_a, "B": base_b, "C": base_c, "D": base_d}
-ENUM_OF = {"A": "E", "B": "K", "C": "Kind", "D": "State"}
+def base_e():
+    """Generated with use_path_prefixes_for_title_model_names off: inline schemas are named by their TITLE alone, so titled inline
+    enums / objects in different operations and components share class names (identical ones share the class).  A refused piece that
+    carries one of those titles must not take the name away from the healthy uses, whichever is declared first."""
+    mode = lambda: {"type": "string", "title": "SharedMode", "enum": ["on", "off", "auto"]}  # noqa: E731
+    box = lambda t: {"type": "object", "title": t, "properties": {"w": {"type": "integer"}}}  # noqa: E731   (objects never share a class)
+    ok = lambda sch: {"200": {"description": "ok", "content": {"application/json": {"schema": sch}}}}  # noqa: E731
+    S = {"Lamp": {"type": "object", "properties": {"mode": mode(), "box": box("LampBox"), "n": {"type": "integer"}}}, "Kind2": {"type": "string", "enum": ["k1", "k2"]},
+         "Room": {"type": "object", "properties": {"lamp": ref("Lamp"), "kind": ref("Kind2")}}}
+    P = {"/first": {"get": {"operationId": "getFirst", "responses": ok(mode())}},
+         "/light": {"get": {"operationId": "getLight", "parameters": [{"name": "m", "in": "query", "schema": mode()}], "responses": ok(ref("Lamp"))},
+                    "post": {"operationId": "setLight", "requestBody": {"content": {"application/json": {"schema": box("LightBox")}}}, "responses": {"204": {"description": "n"}}}},
+         "/room": {"get": {"operationId": "getRoom", "responses": ok(ref("Room"))}},
+         "/last": {"put": {"operationId": "putLast", "requestBody": {"content": {"application/json": {"schema": {"type": "object", "properties": {"mode": mode()}}}}}, "responses": ok(box("LastBox"))}}}
+    return gen.base_doc(S, paths=P)
+
+
+BASES = {"A": base_a, "B": base_b, "C": base_c, "D": base_d, "E": base_e}
+OPTIONS = {"E": {"use_path_prefixes_for_title_model_names": False}}
+ENUM_OF = {"A": "E", "B": "K", "C": "Kind", "D": "State", "E": "Kind2"}
+TITLED_BAD = {   # bad pieces that carry the title of a healthy inline schema of base E (same derived class name)
+    "titled-enum-bad-default": {"type": "string", "title": "SharedMode", "enum": ["on", "off"], "default": "dim"},
+    "titled-enum-mixed": {"title": "SharedMode", "enum": ["on", 1]},
+    "titled-enum-other-values-bad-default": {"type": "string", "title": "SharedMode", "enum": ["on", "off", "auto"], "default": "dim"},
+}
 MARKERS = {"dangling-ref": "Nope", "remote-ref": "remote.example", "bad-default": "zz"}
 
 BAD_SCHEMAS = {
@@ -147,9 +170,11 @@ def insert(doc, bad_name, pos, base="A"):
     """Return (faulted document, carriers) or None if not applicable."""
     d = copy.deepcopy(doc)
     kind = pos[0]
-    if bad_name in BAD_SCHEMAS:
+    if bad_name in TITLED_BAD and base != "E":
+        return None
+    if bad_name in BAD_SCHEMAS or bad_name in TITLED_BAD:
         import json
-        bad = json.loads(json.dumps(BAD_SCHEMAS[bad_name]).replace("<ENUM>", ENUM_OF[base]))
+        bad = json.loads(json.dumps({**BAD_SCHEMAS, **TITLED_BAD}[bad_name]).replace("<ENUM>", ENUM_OF[base]))
         if kind == "new":
             d["components"]["schemas"]["Znew"] = bad
             return d, {("schema", "Znew")}
@@ -245,7 +270,7 @@ def cases(tier):
         doc = mk()
         singles = []
         for pos in positions(doc):
-            for bad in list(BAD_SCHEMAS) + OP_FAULTS:
+            for bad in list(BAD_SCHEMAS) + list(TITLED_BAD) + OP_FAULTS:
                 if (bad in OP_FAULTS) != (pos[0] == "op"):
                     continue
                 r = insert(doc, bad, pos, bname)
@@ -292,11 +317,12 @@ def run_case(p):
         dprime, c = r
         carriers |= c
     key = p["key"]
-    r1 = gen.generate(copy.deepcopy(dprime))
+    opts = OPTIONS.get(p["base"], {})
+    r1 = gen.generate(copy.deepcopy(dprime), **opts)
     if r1.crash:
         # the bad piece takes EVERYTHING away (no output at all) although the document without its cone generates: that is damage to unrelated output
         cone_ = deps.cone(dprime, carriers)
-        rfree = gen.generate(deps.remove_units(dprime, cone_))
+        rfree = gen.generate(deps.remove_units(dprime, cone_), **opts)
         if not rfree.crash and not rfree.rejected and rfree.tree:
             return {"violations": [{"oracle": "bad-piece-crashes-generation", "site": "-", "key": key,
                                     "detail": f"the generator raised {r1.crash['type']} at {r1.crash['where']} and produced nothing; without the piece and its cone {len(rfree.tree)} files are generated"}],
@@ -318,8 +344,8 @@ def run_case(p):
         if pos[0] == "itemparam" and pos[1] in dout["paths"]:      # the shared parameter goes with the operations that inherited it
             prm = dout["paths"][pos[1]]["parameters"]
             dout["paths"][pos[1]]["parameters"] = [q for j, q in enumerate(prm) if j != pos[2]]
-    r2 = gen.generate(dout)
-    r0 = gen.generate(copy.deepcopy(d0))
+    r2 = gen.generate(dout, **opts)
+    r0 = gen.generate(copy.deepcopy(d0), **opts)
     viol = []
     if r2.crash or r2.rejected or r0.crash or r0.rejected:
         return {"harness_error": "cone-free or base document did not generate", "outcome": "HARNESS"}
